@@ -42,7 +42,7 @@ Definition fix_ambiguity (u : uri) : uri :=
 
 (* uriFixEmptyTrailSegment *)
 Definition fix_empty_trail_segment (u : uri) : uri :=
-  if negb (absolutePath u) && negb (is_host_set u) then
+  if negb (is_host_set u) then
     match pathSegs u with
     | [[]] => set_pathSegs [] u
     | _ => u
